@@ -70,6 +70,8 @@ func init() {
 		"(*sync.Map).Delete":        extSyncMapDelete,
 		"(*sync.Map).LoadAndDelete": extSyncMapLoadAndDelete,
 		"(*sync.Map).Range":         extSyncMapRange,
+		"(*sync.Pool).Get":          extPoolGet,
+		"(*sync.Pool).Put":          extPoolPut,
 		"sync/atomic.AddInt32":      extAtomicAdd64,
 		"sync/atomic.AddInt64":      extAtomicAdd64,
 		"sync/atomic.AddUint32":     extAtomicAdd64,
